@@ -54,6 +54,7 @@ package packet
 //@   requires [dec] d.reader != nil
 //@   ensures [never-both] (err == nil ==> pkt != nil && typecode(pkt) != 0) && (err != nil ==> pkt == nil)
 //@   ensures [one-packet] nreadfull <= old(nreadfull) + 1
+//@   ensures [read-whole] err == nil ==> nreadfull == old(nreadfull) + 1
 //@   modifies elemsof(byte), ngrow, nreadfull, bufcap, buflen, pooled
 //@   loop 1 invariant [detect] 2 <= detectionLength && detectionLength <= 6 && ngrow == old(ngrow) && nreadfull == old(nreadfull) && d.reader != nil
 //@   at call 1 Grow assert [limit-checked] (limit <= 0 || packetLength <= limit) && packetLength > 0
